@@ -81,6 +81,8 @@ def committed_bytes(cls, expr):
 
 
 def run(ctx):
+    from ._shared import no_escape_from_finally
+    no_escape_from_finally(ctx, 'D1')   # a failing append raises: no clean-up swallows the exception in flight
     c = ctx.repo.cls('Array')
     f = c.methods.get('iterappend')
     if f is None:
